@@ -64,5 +64,16 @@ CLAIMS = {
     note="Trusted: z3, the DSE shim (ids are formatted into fixed-width placeholder tokens), the card grammars in props/C13.py. Assumes '{:8d}' yields 8 "
          "characters for ids < 10^8. Not covered deductively: rdsets/rdcards/rddmig (regex/split/pandas), wtdmig/wtgrids float formatting, coordinate cards.",
     technique="contracts as card grammars + expansion equality checked on every path of the real writers (DSE + z3); loop-invariant VCs for _find_sequence; bounded round trips"),
+ "C10": dict(
+    text="Proof by dynamic symbolic execution (all paths, symbolic real samples, z3) of the real cyclecount.findap - BOTH definitions: the one that runs here and "
+         "the loop (numba) definition extracted mechanically from the file's AST - for lengths 1..4: first sample selected, selected points strictly alternate "
+         "between local maxima and minima, global extremes reached within the stated tolerance and identical selection by both definitions, the last two "
+         "restricted to inputs outside one recorded known-finding region (some non-zero increment within tolerance) where the unchanged tree genuinely violates "
+         "them; and of getbins/_binify/binify (scalar and explicit bins, right/left closed, 1-2 cycles): every cycle lands in exactly the bin whose documented "
+         "half-open interval contains it, count conserved for automatic bins and whenever explicit bins cover the data. fdepsd clauses (cumulative counts, "
+         "Amax<=SRS, G2>=G1, damage sums, amplitude^2 scaling over 2^-24..2^20) are bounded checks on the real function.",
+    note="Trusted: z3, the DSE shim, assumed contracts of np.digitize/np.linspace/np.sign; floats are reals; lengths fixed per configuration. Not covered "
+         "deductively: fdepsd pipeline (lfilter/resampling), test-variance formulas.",
+    technique="contracts checked on every path of the real functions by dynamic symbolic execution + z3; known-finding region carved out of two obligations; bounded fdepsd checks"),
 }
 NOT_APPLICABLE = {}
